@@ -242,15 +242,24 @@ Qed.
 Lemma tptn_not_type_c : forall (s: pstate) lp x l, Up s (lp :: x :: l) -> kind_eqb (tk lp) K_LPAREN = true ->
   kind_in (tk x) tbl_DECL_START = false ->
   exists s1, (forall f, try_paren_type_name P (S f) s = Ok (None, s1)) /\ Up s1 (lp :: x :: l) /\
-             idx P s1 = idx P s /\ ticks P s1 = (ticks P s + 1)%N.
+             idx P s1 = idx P s /\ ticks P s1 = (ticks P s + 1)%N /\ SC P s s1.
 Proof.
   intros s lp x l HU Hk Hx. destruct (accept_hit P s lp (x :: l) K_LPAREN HU Hk) as [s2 [Ha [HU2 HA]]].
   destruct (peek_kind_up P s2 x l HU2) as [s3 [Hp [HU3 HS]]].
-  destruct (Adv_Same P _ _ _ _ HA HS) as [Hb [Hi Ht]].
-  destruct (reset_one P s3 lp (before P s) (idx P s) (x :: l) Hb Hi HU3) as [s4 [Hr [HU4 [_ [Hi4 Ht4]]]]].
-  exists s4. split; [|split; [exact HU4|split; [exact Hi4|congruence]]]. intros f. rewrite tptn_eq. unfold bind at 1. rewrite mark_eq. unfold bind at 1. rewrite Ha.
+  destruct (Adv_Same P _ _ _ _ HA HS) as [Hb [Hi [Ht Hsc]]].
+  destruct (reset_one P s3 lp (before P s) (idx P s) (x :: l) Hb Hi HU3) as [s4 [Hr [HU4 [_ [Hi4 [Ht4 Hsc4]]]]]].
+  exists s4. split; [|split; [exact HU4|split; [exact Hi4|split; [congruence|exact (fun H => Hsc4 (Hsc H))]]]]. intros f. rewrite tptn_eq. unfold bind at 1. rewrite mark_eq. unfold bind at 1. rewrite Ha.
   unfold bind at 1. unfold starts_declaration. unfold bind at 1. rewrite Hp. unfold ret at 1. cbn [okind_in]. rewrite Hx. cbn [negb].
   unfold bind at 1. rewrite Hr. reflexivity.
+Qed.
+
+Lemma tptn_not_type_cost : forall (s: pstate) lp x l, Up s (lp :: x :: l) -> kind_eqb (tk lp) K_LPAREN = true ->
+  kind_in (tk x) tbl_DECL_START = false ->
+  exists s1, (forall f, try_paren_type_name P (S f) s = Ok (None, s1)) /\ Up s1 (lp :: x :: l) /\
+             idx P s1 = idx P s /\ ticks P s1 = (ticks P s + 1)%N.
+Proof.
+  intros s lp x l HU Hk Hx. destruct (tptn_not_type_c s lp x l HU Hk Hx) as [s1 [H1 [H2 [H3 [H4 _]]]]].
+  exists s1. split; [exact H1|split; [exact H2|split; [exact H3|exact H4]]].
 Qed.
 
 Lemma suffixes_stop_c : forall (s: pstate) n l, Up s (n :: l) -> quiet (tk n) = true ->
